@@ -32,9 +32,21 @@ pub fn c01(g: &mut G) {
             g.emit(build_line(fe, ty, geom_for(fe, i + p), mode_for(fe), &ins_calls(&kv)));
             i += 1;
         }
+        if label.starts_with("widerec") || label.starts_with("fan33") {
+            // every cache geometry
+            for (gi, geom) in GEOMS.iter().enumerate() {
+                let kv = values(keys, (i + gi) % VALUE_PATTERNS, &mut g.rng);
+                g.emit(build_line("raw", 0, geom, "seq", &ins_calls(&kv)));
+                g.emit(build_line("raw", 0, geom, "seq", &add_calls(keys)));
+            }
+        }
         // set-like
         let fe = SET_FES[i % SET_FES.len()];
         g.emit(build_line(fe, 0, geom_for(fe, i), mode_for(fe), &add_calls(keys)));
+        // repeated keys through the set-like front ends that accept them
+        if fe != "set_union_stream" && i % 2 == 0 {
+            g.emit(build_line(fe, 0, geom_for(fe, i), mode_for(fe), &add_calls_rep(keys)));
+        }
         i += 1;
     }
     // large inputs: shipped corpora and long random sets (digest comparison)
